@@ -125,7 +125,11 @@ func discoverCacheRoles(c *Ctx) *cacheRoles {
 	}
 	// remote / buffer from the copy step and the mutators of Commit
 	votes := map[string]int{}
-	for _, ci := range Calls(commit) {
+	var groupCalls []*CallInfo
+	for _, g := range commitGroup(c.P, commit) {
+		groupCalls = append(groupCalls, Calls(g)...)
+	}
+	for _, ci := range groupCalls {
 		if ci.Static != nil && qualName(ci.Static) == mq("filesystem/fshelper", "", "StreamCopy") {
 			for _, o := range Origins(ci.Arg(1), FlowOpts{}) {
 				if o.Kind == "field" && strings.HasPrefix(o.Name, tn) {
@@ -262,10 +266,22 @@ func rulesC06(c *Ctx) {
 	}
 
 	// ---- R1 remote only written by Commit -----------------------------------------------
+	group := commitGroup(c.P, commit)
+	inG := map[*ssa.Function]bool{}
+	for _, g := range group {
+		inG[g] = true
+	}
+	if len(group) > 1 {
+		var gn []string
+		for _, g := range group[1:] {
+			gn = append(gn, fname(g))
+		}
+		c.Note("Commit is split into private stages called from nowhere else: %s", strings.Join(gn, ", "))
+	}
 	inCommit, outside := 0, 0
 	for _, f := range fns {
 		for _, u := range mutatingUsesOf(f, remote) {
-			if f == commit {
+			if inG[f] {
 				inCommit++
 				continue
 			}
@@ -294,13 +310,16 @@ func rulesC06(c *Ctx) {
 			con = "journal " + jn + " replayed by Commit"
 		}
 		var rng *ssa.Range
-		eachInstr(commit, func(_ *ssa.BasicBlock, _ int, in ssa.Instruction) {
-			if r, ok := in.(*ssa.Range); ok {
-				if n, _ := fieldLoadName(r.X); n == jn {
-					rng = r
+		rngFn := commit
+		for _, g := range group {
+			eachInstr(g, func(_ *ssa.BasicBlock, _ int, in ssa.Instruction) {
+				if r, ok := in.(*ssa.Range); ok {
+					if n, _ := fieldLoadName(r.X); n == jn {
+						rng, rngFn = r, g
+					}
 				}
-			}
-		})
+			})
+		}
 		if rng == nil {
 			c.Bad("R2", con, commit.Pos(), "Commit does not range over this journal ("+jn+") — a whole class of buffered operations never reaches the remote")
 			continue
@@ -319,7 +338,7 @@ func rulesC06(c *Ctx) {
 			}
 		}
 		okOp := false
-		for _, u := range mutatingUsesOf(commit, remote) {
+		for _, u := range mutatingUsesOf(rngFn, remote) {
 			match := false
 			for _, o := range ops {
 				if u.what == o {
@@ -344,43 +363,67 @@ func rulesC06(c *Ctx) {
 	c.Floor("R2", n2, 4)
 
 	// ---- R7 a successful Commit has replayed the journals -----------------------------------------
-	ruleCommitReplays(c, commit, roles)
+	ruleCommitReplays(c, commit, roles, group)
 
 	// ---- R3 Commit reports remote failure --------------------------------------------------------
-	facts := factsFor(commit)
 	n3 := 0
-	for _, u := range mutatingUsesOf(commit, remote) {
-		if u.ci.Instr == nil {
-			continue
+	for _, commit := range group {
+		facts := factsFor(commit)
+		for _, u := range mutatingUsesOf(commit, remote) {
+			if u.ci.Instr == nil {
+				continue
+			}
+			call, ok := u.ci.Instr.(*ssa.Call)
+			if !ok {
+				c.Bad("R3", "remote "+u.what+" in Commit", u.ci.Pos(), "a remote operation is deferred or spawned: its failure cannot be reported")
+				continue
+			}
+			idx := errResultIndex(call.Call.Signature())
+			if idx < 0 {
+				continue
+			}
+			n3++
+			con := fmt.Sprintf("error of remote %s #%d in Commit", u.what, n3)
+			errs := resultN(call, idx)
+			if len(errs) == 0 {
+				c.Bad("R3", con, call.Pos(), "the error of a remote operation is dropped — Commit reports success although the remote is incomplete")
+				continue
+			}
+			ev := errs[0]
+			ret := false
+			for _, r := range returnsOf(commit) {
+				if facts.KnownNil(r.Block(), ev, false) {
+					rv := resolve(r.Results[len(r.Results)-1])
+					if rv == ev || sameValue(rv, ev) {
+						ret = true
+					}
+				}
+			}
+			cont := !failingEdgeAlwaysReturns(commit, ev)
+			c.Check(ret && !cont, "R3", con, call.Pos(), "returned on its non-nil edge; the loop continues only on nil", "a failing remote operation is not returned (or the replay loop continues after it)")
 		}
-		call, ok := u.ci.Instr.(*ssa.Call)
-		if !ok {
-			c.Bad("R3", "remote "+u.what+" in Commit", u.ci.Pos(), "a remote operation is deferred or spawned: its failure cannot be reported")
-			continue
-		}
-		idx := errResultIndex(call.Call.Signature())
-		if idx < 0 {
-			continue
-		}
-		n3++
-		con := fmt.Sprintf("error of remote %s #%d in Commit", u.what, n3)
-		errs := resultN(call, idx)
-		if len(errs) == 0 {
-			c.Bad("R3", con, call.Pos(), "the error of a remote operation is dropped — Commit reports success although the remote is incomplete")
-			continue
-		}
-		ev := errs[0]
-		ret := false
-		for _, r := range returnsOf(commit) {
-			if facts.KnownNil(r.Block(), ev, false) {
-				rv := resolve(r.Results[len(r.Results)-1])
-				if rv == ev || sameValue(rv, ev) {
+	}
+	// the error of a stage is the error of Commit: each call of a stage is returned as it is
+	for _, g := range group {
+		for _, ci := range Calls(g) {
+			if ci.Static == nil || !inG[ci.Static] || errResultIndex(ci.Static.Signature) < 0 {
+				continue
+			}
+			ret := false
+			for _, r := range returnsOf(g) {
+				if resolve(r.Results[len(r.Results)-1]) == ci.Value() {
 					ret = true
 				}
 			}
+			if !ret {
+				if call, ok := ci.Instr.(*ssa.Call); ok {
+					if ev := firstOr(resultN(call, errResultIndex(ci.Static.Signature))); ev != nil && failingEdgeAlwaysReturns(g, ev) {
+						ret = true
+					}
+				}
+			}
+			c.Check(ret, "R3", "error of stage "+fname(ci.Static)+" in "+fname(g), ci.Pos(), "returned", "the error of a commit stage is dropped — Commit reports success although the remote is incomplete")
 		}
-		cont := !failingEdgeAlwaysReturns(commit, ev)
-		c.Check(ret && !cont, "R3", con, call.Pos(), "returned on its non-nil edge; the loop continues only on nil", "a failing remote operation is not returned (or the replay loop continues after it)")
 	}
 	c.Floor("R3", n3, 4)
 
@@ -557,7 +600,78 @@ func (r *cacheRoles) histNamed(c *Ctx) *types.Named {
 // accepted only if the flag it tests is armed again on every failing exit of
 // Commit after it was cleared - otherwise the Commit that follows a failed one
 // reports success without bringing the remote up to date.
-func ruleCommitReplays(c *Ctx, commit *ssa.Function, roles *cacheRoles) {
+func ruleCommitReplays(c *Ctx, commit *ssa.Function, roles *cacheRoles, group []*ssa.Function) {
+	if len(group) > 1 {
+		// Commit split into stages: a possibly-nil return counts the journals ranged over before it in
+		// its own function plus, when it hands on a stage's result, those of that stage (recursively)
+		inG := map[*ssa.Function]bool{}
+		for _, g := range group {
+			inG[g] = true
+		}
+		var want []string
+		for _, jn := range roles.journals {
+			if len(roles.recorder[jn]) > 0 {
+				want = append(want, jn)
+			}
+		}
+		memo := map[*ssa.Function]map[string]bool{}
+		var replayed func(f *ssa.Function, depth int) map[string]bool
+		replayed = func(f *ssa.Function, depth int) map[string]bool {
+			if m, ok := memo[f]; ok {
+				return m
+			}
+			memo[f] = map[string]bool{}
+			ei := errResultIndex(f.Signature)
+			facts := factsFor(f)
+			var res map[string]bool
+			for _, r := range returnsOf(f) {
+				if ei >= 0 && facts.HoldsOnAllEdges(r.Block(), func(fs factSet) bool { return knownNilIn(fs, r.Results[ei], false) }) {
+					continue
+				}
+				got := map[string]bool{}
+				eachInstr(f, func(_ *ssa.BasicBlock, _ int, in ssa.Instruction) {
+					if rg, ok := in.(*ssa.Range); ok && dominates(rg, r) {
+						if n, _ := fieldLoadName(rg.X); n != "" {
+							got[n] = true
+						}
+					}
+				})
+				if ei >= 0 && depth < 8 {
+					if call, ok := resolve(r.Results[ei]).(*ssa.Call); ok {
+						if h := call.Call.StaticCallee(); h != nil && inG[h] {
+							for k := range replayed(h, depth+1) {
+								got[k] = true
+							}
+						}
+					}
+				}
+				if res == nil {
+					res = got
+				} else {
+					for k := range res {
+						if !got[k] {
+							delete(res, k)
+						}
+					}
+				}
+			}
+			if res == nil {
+				res = map[string]bool{}
+			}
+			memo[f] = res
+			return res
+		}
+		got := replayed(commit, 0)
+		var missing []string
+		for _, jn := range want {
+			if !got[jn] {
+				missing = append(missing, jn)
+			}
+		}
+		c.Check(len(missing) == 0, "R7", "Commit replays before it reports success", commit.Pos(), fmt.Sprintf("every possibly-nil return of the stage chain follows the loops over all %d journals", len(want)),
+			"Commit can return nil without having ranged over "+strings.Join(missing, ", ")+" — buffered operations are acknowledged but never reach the remote")
+		return
+	}
 	facts := factsFor(commit)
 	ei := errResultIndex(commit.Signature)
 	var rngs []*ssa.Range
@@ -592,6 +706,43 @@ func ruleCommitReplays(c *Ctx, commit *ssa.Function, roles *cacheRoles) {
 			}
 		}
 	}
+	// a skip is fine where every journal is known to be empty (directly, or through a private
+	// predicate whose true result implies it): replaying nothing is what the loops would do
+	var jnames []string
+	for _, rg := range rngs {
+		if n, _ := fieldLoadName(rg.X); n != "" {
+			jnames = append(jnames, n)
+		}
+	}
+	allEmptyOn := func(fs factSet) bool {
+		got := journalsEmptyIn(fs)
+		for k := range fs {
+			if call, ok := k.v.(*ssa.Call); ok && k.pol {
+				if h := call.Call.StaticCallee(); h != nil && h.Pkg == commit.Pkg && h.Blocks != nil {
+					for j := range trueImpliesEmpty(h) {
+						got[j] = true
+					}
+				}
+			}
+		}
+		for _, j := range jnames {
+			if !got[j] {
+				return false
+			}
+		}
+		return true
+	}
+	var still []*ssa.Return
+	for _, r := range bypass {
+		if !facts.HoldsOnAllEdges(r.Block(), allEmptyOn) {
+			still = append(still, r)
+		}
+	}
+	if len(still) < len(bypass) && len(still) == 0 {
+		c.OK("R7", "Commit replays before it reports success", commit.Pos(), "the only returns that skip the loops are taken where every journal is known to be empty")
+		return
+	}
+	bypass = still
 	if len(bypass) == 0 {
 		c.OK("R7", "Commit replays before it reports success", commit.Pos(), fmt.Sprintf("every possibly-nil return follows the loops over all %d journals", len(rngs)))
 		return
@@ -669,4 +820,161 @@ func ruleCommitReplays(c *Ctx, commit *ssa.Function, roles *cacheRoles) {
 	}
 	c.Check(bad == "", "R7", con, bypass[0].Pos(), "the skip flag "+flag+" is armed again on every failing exit",
 		"Commit skips the replay when "+flag+" is clear, clears it before replaying, and the failing return at "+bad+" does not arm it again — after a remote failure the next Commit returns nil at once and the remote stays half-updated")
+}
+
+// journalsEmptyIn: names of map fields m for which the facts contain len(m) == 0.
+func journalsEmptyIn(fs factSet) map[string]bool {
+	out := map[string]bool{}
+	for k := range fs {
+		if j := lenZeroField(k.v, k.pol); j != "" {
+			out[j] = true
+		}
+	}
+	return out
+}
+
+// lenZeroField: condition c with polarity pol says len(<load of field F>) == 0; returns F.
+func lenZeroField(c ssa.Value, pol bool) string {
+	bo, ok := c.(*ssa.BinOp)
+	if !ok {
+		return ""
+	}
+	var other ssa.Value
+	if kv, ok := constInt(bo.Y); ok && kv == 0 {
+		other = bo.X
+	} else if kv, ok := constInt(bo.X); ok && kv == 0 {
+		other = bo.Y
+	} else {
+		return ""
+	}
+	zero := (bo.Op == token.EQL && pol) || (bo.Op == token.NEQ && !pol) || (bo.Op == token.GTR && !pol) || (bo.Op == token.LEQ && pol)
+	if !zero {
+		return ""
+	}
+	lc, ok := other.(*ssa.Call)
+	if !ok {
+		return ""
+	}
+	if b, ok := lc.Call.Value.(*ssa.Builtin); !ok || b.Name() != "len" {
+		return ""
+	}
+	n, _ := fieldLoadName(lc.Call.Args[0])
+	return n
+}
+
+// trueImpliesEmpty: for a bool function h, the map fields that are known empty
+// whenever h returns true.
+func trueImpliesEmpty(h *ssa.Function) map[string]bool {
+	if h.Signature.Results().Len() != 1 {
+		return nil
+	}
+	facts := factsFor(h)
+	var impl func(v ssa.Value, fs factSet, seen map[ssa.Value]bool) map[string]bool
+	all := map[string]bool{"*": true}
+	inter := func(a, b map[string]bool) map[string]bool {
+		if a["*"] {
+			return b
+		}
+		if b["*"] {
+			return a
+		}
+		out := map[string]bool{}
+		for k := range a {
+			if b[k] {
+				out[k] = true
+			}
+		}
+		return out
+	}
+	impl = func(v ssa.Value, fs factSet, seen map[ssa.Value]bool) map[string]bool {
+		v = resolve(v)
+		if b, ok := constBool(v); ok && !b {
+			return all
+		}
+		got := journalsEmptyIn(fs)
+		if j := lenZeroField(v, true); j != "" {
+			got[j] = true
+			return got
+		}
+		if p, ok := v.(*ssa.Phi); ok && !seen[v] {
+			seen[v] = true
+			res := all
+			for i, e := range p.Edges {
+				res = inter(res, impl(e, factsOnEdge(facts, p.Block().Preds[i], p.Block()), seen))
+			}
+			return res
+		}
+		return got
+	}
+	res := all
+	for _, r := range returnsOf(h) {
+		res = inter(res, impl(r.Results[0], facts.At(r.Block()), map[ssa.Value]bool{}))
+	}
+	if res["*"] {
+		return nil
+	}
+	return res
+}
+
+// commitGroup: Commit plus the private functions of its package that are
+// reachable from it and called from nowhere else (stages Commit was split into).
+func commitGroup(p *Prog, commit *ssa.Function) []*ssa.Function {
+	return privateGroup(p, commit, true)
+}
+
+// privateGroup: root plus the unexported functions of its package reachable from
+// it that are called from nowhere else; with syncOnly, only plain calls count
+// (a helper started with go/defer does not belong to the caller's control flow).
+func privateGroup(p *Prog, commit *ssa.Function, syncOnly bool) []*ssa.Function {
+	if commit == nil || commit.Pkg == nil {
+		return nil
+	}
+	all := p.PkgFuncs(strings.TrimPrefix(commit.Pkg.Pkg.Path(), modPath+"/"))
+	callers := map[*ssa.Function]map[*ssa.Function]bool{}
+	for _, f := range all {
+		for _, g := range withClosures(f) {
+			for _, ci := range Calls(g) {
+				if ci.Static != nil && ci.Static.Pkg == commit.Pkg {
+					if syncOnly && ci.Kind != "call" {
+						// an asynchronous use: make the callee un-ownable
+						if callers[ci.Static] == nil {
+							callers[ci.Static] = map[*ssa.Function]bool{}
+						}
+						callers[ci.Static][nil] = true
+						continue
+					}
+					if callers[ci.Static] == nil {
+						callers[ci.Static] = map[*ssa.Function]bool{}
+					}
+					top := g
+					for top.Parent() != nil {
+						top = top.Parent()
+					}
+					callers[ci.Static][top] = true
+				}
+			}
+		}
+	}
+	in := map[*ssa.Function]bool{commit: true}
+	out := []*ssa.Function{commit}
+	for changed := true; changed; {
+		changed = false
+		for _, f := range all {
+			if in[f] || f.Parent() != nil || (f.Object() != nil && f.Object().Exported()) || len(callers[f]) == 0 {
+				continue
+			}
+			only := true
+			for cl := range callers[f] {
+				if !in[cl] {
+					only = false
+				}
+			}
+			if only {
+				in[f] = true
+				out = append(out, f)
+				changed = true
+			}
+		}
+	}
+	return out
 }
